@@ -13,6 +13,8 @@ pub struct Finding {
     pub also_in: Vec<String>,
     pub status: String,
     pub sig: String,
+    /// further signature patterns of the same finding
+    pub more_sigs: Vec<String>,
     pub what: String,
 }
 
@@ -45,6 +47,7 @@ impl Known {
                             .unwrap_or_default(),
                         status: st,
                         sig: f["sig"].as_str().unwrap_or("").to_string(),
+                        more_sigs: f["more_sigs"].as_array().map(|a| a.iter().filter_map(|x| x.as_str().map(String::from)).collect()).unwrap_or_default(),
                         what: f["what"].as_str().unwrap_or("").to_string(),
                     });
                 }
@@ -59,7 +62,7 @@ impl Known {
             .find(|f| {
                 f.status == "known"
                     && (f.property == prop || f.also_in.iter().any(|p| p == prop))
-                    && sig_matches(&f.sig, sig)
+                    && (sig_matches(&f.sig, sig) || f.more_sigs.iter().any(|p| sig_matches(p, sig)))
             })
             .map(|f| f.id.clone())
     }
